@@ -68,7 +68,8 @@ try:
     if result['confirmed']:
         os.makedirs(out_dir, exist_ok=True)
         open(f'{out_dir}/patch.diff', 'w').write(applied)
-        shutil.copy(a.demo, f'{out_dir}/demo.rs')
+        if os.path.abspath(a.demo) != os.path.abspath(f'{out_dir}/demo.rs'):
+            shutil.copy(a.demo, f'{out_dir}/demo.rs')
         if a.notes and os.path.exists(a.notes):
             shutil.copy(a.notes, f'{out_dir}/notes_from_author.md')
         meta = {
@@ -82,6 +83,13 @@ try:
                 'suite_with_patch': result['suite_with_patch'],
             },
         }
+        if os.path.exists(f'{out_dir}/meta.json'):
+            old = json.load(open(f'{out_dir}/meta.json'))
+            for k in ('ported', 'detection'):
+                if k in old:
+                    meta[k] = old[k]
+            if not a.needs and old.get('needs_to_manifest'):
+                meta['needs_to_manifest'] = old['needs_to_manifest']
         json.dump(meta, open(f'{out_dir}/meta.json', 'w'), indent=1)
 finally:
     subprocess.run(['git', '-C', '/repo', 'worktree', 'remove', '--force', WT], capture_output=True)
